@@ -148,6 +148,10 @@ def random_scenario(rng, weights=None, max_hosts=4, max_ops=14, env_changes=True
           'known': [], 'script': [], 'ops': []}
     if sc['ps'] is not None and rng.random() < 0.5:
         sc['pidem'] = rng.random() < 0.5
+    if sc['ps'] is not None and rng.random() < 0.3:
+        sc['markers'] = True          # statement with a bind marker (other branch of PreparedStatement.from_message)
+    sc['metrics'] = rng.random() < 0.4    # Cluster(metrics_enabled=True)
+    sc['nids'] = rng.choice([1, 1, 2, 4, 300])   # size of the connections' stream-id deque (id 0 first, FIFO recycling)
     if rng.random() < 0.5:
         sc['known'] = [[7, rng.choice([3, 4]), rng.choice([None, 1, 2])]]
         if rng.random() < 0.5:       # the same text prepared under another keyspace: a second cached id
